@@ -129,6 +129,9 @@ func (p *Pool) spawnWith(extra []string) (*worker, error) {
 
 func scrubbedEnv(gomax string) []string {
 	env := []string{"VERIF_WORKER=1", "GOMAXPROCS=" + gomax, "PATH=/usr/bin:/bin", "HOME=/nonexistent", "GOTRACEBACK=all", "TMPDIR=" + os.TempDir()}
+	if os.Getenv("VERIF_RACE") != "" {
+		env = append(env, "GORACE=halt_on_error=1 exitcode=66 history_size=3")
+	}
 	for _, k := range []string{"VERIF_SCHED_TRACE", "VERIF_DEBUG"} {
 		if v := os.Getenv(k); v != "" {
 			env = append(env, k+"="+v)
